@@ -35,6 +35,11 @@ type c16Spec struct {
 	SinceTxt string `json:"since_text"`
 	HasStep  bool   `json:"has_step"`
 	StepTxt  string `json:"step_text"`
+	// TinyStep: the explicit step is a positive number of seconds below or near one
+	// nanosecond. Whether such a value is accepted is not judged; if it is, the step
+	// must still be strictly positive, which shows at the daemon when start == end
+	// (a zero step would make the query an instant query with a look-back window).
+	TinyStep bool `json:"tiny_step,omitempty"`
 	// Bad names the flag that carries a malformed value ("" = none).
 	Bad    string `json:"bad,omitempty"`
 	BadTxt string `json:"bad_text,omitempty"`
@@ -175,7 +180,15 @@ func (propC16) Gen(r *Rng, run uint64, tier string) *Plan {
 	s.Start, s.StartSp = genInstant(r.Sub("start"), s.End-3600*sec)
 	s.SinceNs, s.SinceTxt = genPromDuration(r.Sub("since"))
 	s.StepTxt = Pick(r, []string{"1", "15", "0.5", "2.25", "30s", "1m", "1h30m", "1d", "250ms", "1e3"})
-	if r.Bool(0.35) {
+	if r.Bool(0.06) {
+		s.TinyStep, s.HasStep = true, true
+		s.StepTxt = Pick(r, []string{"1e-10", "0.0000000001", "5e-324", "1e-9", "0.000000001", "0.0000000004", "9e-10", "1e-12"})
+		s.HasStart, s.HasEnd = true, true
+		s.End -= s.End % 1_000_000
+		s.Start = s.End
+		s.StartSp, s.EndSp = Pick(r, []string{"nanos", "rfc", "frac"}), Pick(r, []string{"nanos", "rfc", "frac"})
+		p.Config = "tiny_step"
+	} else if r.Bool(0.35) {
 		p.Config = "malformed"
 		var cands []string
 		if s.HasStart {
@@ -266,6 +279,16 @@ func (propC16) Check(t *testing.T, p *Plan, st *Stats) *Violation {
 		}
 		return nil
 	}
+	if o.Failed && s.TinyStep {
+		// rejecting a step that cannot be represented is fine
+		if st != nil {
+			st.Probe("tiny_step_rejected")
+		}
+		return nil
+	}
+	if st != nil {
+		st.ProbeIf(s.TinyStep, "tiny_step_accepted")
+	}
 	if o.Failed {
 		return viol("C16(valid-accepted)", "the command accepts well-formed flags", clip(o.ErrText, 300))
 	}
@@ -293,6 +316,10 @@ func (propC16) Check(t *testing.T, p *Plan, st *Stats) *Violation {
 	gu, okU, errU := parseDaemonTime(op.Until)
 	if errS != nil || errU != nil || !okS || !okU {
 		return viol("C16(range)", "since and until as timestamps", fmt.Sprintf("since=%q until=%q", op.Since, op.Until))
+	}
+	if gs != floorSec(start) && s.TinyStep {
+		return viol("C16(step-positive)", fmt.Sprintf("an accepted --step=%s is strictly positive: with start == end the daemon is asked since=%d", s.StepTxt, floorSec(start)/sec),
+			fmt.Sprintf("since=%q: the query ran as an instant query with a look-back window, i.e. with step 0", op.Since))
 	}
 	if gs != floorSec(start) {
 		how := "explicit --start"
